@@ -204,7 +204,12 @@ def claim_drop_unlinks(cx, res, kf):
         some = z3.Bool("more_cells_%d" % next(engine.fresh))
         st.events.append(("more", some))
         return S.mk_option(some, Ref(("V", Opaque("Cons", "later", {}))))
-    eng.stubs = [(re.compile(r"^Cons::(car|cdr)$"), h_carcdr), (re.compile(r"^Cons::take$"), h_take), (re.compile(r"^Cons::cdr_mut$"), h_cdr_mut),
+    def h_as_pair(engine, st, fr, callee, argv, m):
+        c = unref(st, argv[0])
+        if not isinstance(c, Opaque) or "cdr" not in c.attrs:
+            return Agg("tuple", None, [Ref(("V", Blob("field"))), Ref(("V", Blob("field")))])
+        return Agg("tuple", None, [Ref(("V", c.attrs["car"])), Ref(("V", c.attrs["cdr"]))])
+    eng.stubs = [(re.compile(r"^Cons::(car|cdr)$"), h_carcdr), (re.compile(r"^Cons::as_pair$"), h_as_pair), (re.compile(r"^Cons::take$"), h_take), (re.compile(r"^Cons::cdr_mut$"), h_cdr_mut),
                  (re.compile(r"^Value::as_cons_mut$"), h_as_cons_mut),
                  # list-walking predicates (is_list, is_dotted_list, ...): an arbitrary answer
                  (re.compile(r"^Value::is_(?!cons$|null$)\w+$"), lambda e, st, fr, c, a, m: BoolV(z3.Bool("pred_%d" % next(e.fresh)))),
@@ -231,12 +236,13 @@ def claim_drop_unlinks(cx, res, kf):
     res.absorb(eng)
 
     def onm(m=None):
-        for dotted in (True, False):
-            done = RP.stack_op("drop", 60000, dotted=dotted, timeout=400)
-            res.replays += 1
-            if done is False:
-                return {"replayed": True, "observed": "drop of a 60000-element %s list on a 2 MiB stack did not complete" % ("dotted" if dotted else "proper"),
-                        "witness": {"kind": "stack", "op": "drop", "n": 60000, "dotted": dotted}}
+        for op in ("drop", "drop_nils", "drop_nested_heads"):
+            for dotted in (True, False):
+                done = RP.stack_op(op, 60000, dotted=dotted, timeout=400)
+                res.replays += 1
+                if done is False:
+                    return {"replayed": True, "observed": "%s of a 60000-element %s list on a 2 MiB stack did not complete" % (op, "dotted" if dotted else "proper"),
+                            "witness": {"kind": "stack", "op": op, "n": 60000, "dotted": dotted}}
         return {"replayed": False}
     seen = {"early": 0, "loop": 0, "step": 0}
     long_chain = z3.And(info["cdr1"].discr == CONS, info["cdr2"].discr == CONS)
@@ -383,6 +389,69 @@ def claim_spaninfo_drop(cx, res, kf):
         res.vacuity.append(("SpanInfo::drop reaches %s" % k, n > 0))
 
 
+def claim_lookup_no_recursion(cx, res, kf):
+    """C16: association-list lookup (by value, by name) and positional indexing walk the list in a loop: none of the `index_into`
+    implementations calls an `index_into` again on the rest of the list (one stack frame per entry)."""
+    from . import c15 as C15
+    from .serde import sym_value
+    VAL = cx.enums["Value"]
+    n_paths = 0
+    for which, callee in (("value", "<Value as Index>::index_into"), ("name", "<str as Index>::index_into"), ("position", "<usize as Index>::index_into")):
+        fn = C.resolve_callee(cx, callee)
+        if fn is None:
+            res.error = "%s not found" % callee
+            return
+        eng = C.make_engine(cx, [], loop_mode="cut", timeout_s=120, max_paths=3000)
+
+        def h_again(engine, st, fr, callee_, argv, m):
+            st.events.append(("lookup_again", callee_))
+            return S.mk_option(z3.Bool("again_%d" % next(engine.fresh)), Ref(("V", Blob("found later"))))
+        def h_slice_get(engine, st, fr, callee_, argv, m):
+            return S.mk_option(z3.Bool("inrange_%d" % next(engine.fresh)), Ref(("V", Blob("element"))))
+        eng.stubs = [(re.compile(r"^<.* as (?:value::)?(?:index::)?Index>::index_into$"), h_again),
+                     (re.compile(r"^core::slice::<impl \[Value\]>::get::<usize>$"), h_slice_get)] + C15.cell_stubs(cx, eng) + S.COMBINATOR_STUBS + S.CORE_STUBS
+
+        def init(e, st, fr, which=which, fn=fn):
+            target = sym_value(cx, e, st, "target", 0)
+            entry = sym_value(cx, e, st, "entry", 1)
+            cell = Opaque("Cons", "somecell", {"car": entry, "cdr": sym_value(cx, e, st, "rest", 0)})
+            st.notes["some_cell"] = cell
+            # the target, when it is a list, starts with that cell
+            CONS = VAL.index("Cons")
+            if isinstance(target, EnumV):
+                target.variants[CONS] = [cell]
+            st.heap["target"] = target
+            if which == "value":
+                st.heap["key"] = sym_value(cx, e, st, "key", 0)
+                fr.locals[fn.args[0]] = Ref(("H", "key"))
+            elif which == "name":
+                fr.locals[fn.args[0]] = Ref(("V", Opaque("str", "wanted-name", {})))
+            else:
+                fr.locals[fn.args[0]] = Ref(("V", e.sym_int("usize", "position")))
+            fr.locals[fn.args[1]] = Ref(("H", "target"))
+            return []
+
+        def onm(m, which=which):
+            op = {"value": "alist_get_value", "name": "alist_get_name", "position": "get"}[which]
+            done = RP.stack_op(op, 300000)
+            res.replays += 1
+            if done is False:
+                return {"replayed": True, "observed": "%s on 300000 entries did not complete on a 2 MiB stack" % op, "witness": {"kind": "stack", "op": op, "n": 300000}}
+            return {"replayed": False, "observed": "completed"}
+        try:
+            terms = eng.explore(fn.name, init)
+        except Unsupported as e:
+            res.error = "unsupported: index_into (%s): %s" % (which, e)
+            return
+        res.absorb(eng)
+        for t in terms:
+            n_paths += 1
+            again = [e for e in t.state.events if e[0] == "lookup_again"]
+            if again:
+                res.must_be_unsat(list(t.state.pc), "lookup by %s calls %s again for the rest of the list: one stack frame per entry" % (which, again[0][1]), onm)
+    res.vacuity.append(("lookup functions explored", n_paths >= 6))
+
+
 def claim_ignored_any(cx0, res, kf):
     """Skipping an unknown field (serde's IgnoredAny) must not walk the skipped value: deserialize_ignored_any only tells
     the visitor `unit`; forwarding to deserialize_any would present a list as nested (car, cdr) pairs, one stack frame per
@@ -503,6 +572,10 @@ CLAIMS = [
           "its span, and each further one in its loop) before the node reaches the recursive drop glue, and stops only at a "
           "non-list node",
           "arbitrary node kinds; any chain length (loop cut)", configs=("fast",), also=("C03",)),
+    Claim("c16_lookup_no_recursion", "C16", "quick", claim_lookup_no_recursion,
+          "Value::get / indexing by value, by name and by position: no `index_into` implementation calls an `index_into` again for "
+          "the rest of the list on any path (the walk is a loop, not one stack frame per entry)",
+          "arbitrary target, entry and key kinds; all paths of the three implementations", configs=("fast",), also=("C15",)),
     Claim("c16_error_paths_shallow", "C16", "quick", claim_error_paths_shallow,
           "the error built for a value of the wrong kind never formats that value (no Debug / Display of a list from inside from_value)",
           "every value kind", configs=("fast",), crate="serde-lexpr"),
